@@ -277,8 +277,15 @@ def main(argv):
     if violations:
         return 1
     if harness_errors:
-        for h in harness_errors[:10]:
-            print('HARNESS-ERROR ' + h, file=sys.stderr)
+        seen_h = set()
+        for h in harness_errors:
+            first = h.strip().splitlines()[0] if h.strip() else h
+            if first in seen_h:
+                continue
+            seen_h.add(first)
+            print('HARNESS-ERROR ' + h[:3000], file=sys.stderr)
+            if len(seen_h) >= 5:
+                break
         return 2
     return 0
 
